@@ -8,6 +8,7 @@ package cert
 
 import (
 	"bytes"
+	"crypto/rand"
 	"encoding/pem"
 	"fmt"
 	"strings"
@@ -391,8 +392,23 @@ func TestC43_KeyPEMHelpers(t *testing.T) {
 
 // ---- native fuzz target (thorough tier) -----------------------------------------------------------------------
 
+// c43CountingReader is a deterministic stand-in for crypto/rand.Reader while the fuzz bases are
+// built: the coordinator and every worker process must arrive at the same encrypted files (the
+// AES-GCM nonce is the only random input left once the salt is given).
+type c43CountingReader struct{ n byte }
+
+func (r *c43CountingReader) Read(p []byte) (int, error) {
+	for i := range p {
+		r.n++
+		p[i] = r.n
+	}
+	return len(p), nil
+}
+
 func FuzzC43Decrypt(f *testing.F) {
 	var bases []*c43Case
+	savedReader := rand.Reader
+	rand.Reader = &c43CountingReader{}
 	for i, curve := range []Curve{Curve_CURVE25519, Curve_P256} {
 		c := &c43Case{curve: curve, key: append([]byte{}, cgSigningKey(curve, 0).priv...), pass: []byte(fmt.Sprintf("fuzz passphrase %d", i))}
 		kdf := NewArgon2Parameters(8, 1, 1)
@@ -413,6 +429,12 @@ func FuzzC43Decrypt(f *testing.F) {
 		f.Add(uint8(i), []byte("other"), b)
 		blk, _ := pem.Decode(b)
 		f.Add(uint8(i), c.pass, pem.EncodeToMemory(&pem.Block{Type: c43AllBanners[1-i], Bytes: blk.Bytes}))
+	}
+	rand.Reader = savedReader
+	for _, c := range bases {
+		if _, k, _, err := DecryptAndUnmarshalSigningPrivateKey(c.pass, c.pemb); err != nil || !bytes.Equal(k, c.key) {
+			f.Fatalf("harness: base does not open: %v", err)
+		}
 	}
 	f.Add(uint8(0), []byte{}, []byte("-----BEGIN NEBULA ED25519 ENCRYPTED PRIVATE KEY-----\n-----END NEBULA ED25519 ENCRYPTED PRIVATE KEY-----\n"))
 	f.Fuzz(func(t *testing.T, which uint8, pass []byte, data []byte) {
